@@ -19,11 +19,25 @@ LIMIT = 253 ** 3
 _H = None
 
 
+RAISED = -2000000001      # row value standing for "the call raised" (no hash is that small)
+NOTINT = -2000000002      # ... "the result is not an int" (a float equal to the right number cannot be written with add_int)
+
+
+def _call(c):
+    try:
+        h = _H(c)
+    except Exception:
+        return RAISED
+    if type(h) is not int:
+        return NOTINT
+    return h if abs(h) < 2000000000 else NOTINT
+
+
 def _gen(spec):
     if spec["kind"] == "exh":
         b, n = spec["base"], spec["n"]
-        return {"kind": "exh", "base": b, "rows": [_H(c) for c in range(b, b + n)]}
-    return {"kind": "rows", "rows": [[c, _H(c)] for c in spec["values"]]}
+        return {"kind": "exh", "base": b, "rows": [_call(c) for c in range(b, b + n)]}
+    return {"kind": "rows", "rows": [[c, _call(c)] for c in spec["values"]]}
 
 
 def _specs(tier, rng):
@@ -102,8 +116,10 @@ def run(tier, corrupt=False):
                     bad_total += len(idxs)
                     for i in idxs[:8]:
                         c, h = _describe(blk, i)
-                        v.violation(_key(c), f"server_verification_hash({c}) = {h} differs from the client formula (truncating remainder)",
-                                    {"challenge": c, "observed": h})
+                        what = (f"server_verification_hash({c}) raised an exception" if h == RAISED else
+                                f"server_verification_hash({c}) does not return an int (a float cannot be sent as an EO int)" if h == NOTINT else
+                                f"server_verification_hash({c}) = {h} differs from the client formula (truncating remainder)")
+                        v.violation(_key(c), what, {"challenge": c, "observed": h})
     cov.update({"traces_validated_against_impl": total, "rows_disagreeing": bad_total, "samples": samples,
                 "exhaustive": tier == "thorough",
                 "strata": "all 16,194,277 challenges" if tier == "thorough" else
